@@ -146,6 +146,12 @@ def _import(fmt, M, labels, cls, dtype, by_class):
     import numpy as np
     from pywhy_graphs import export as E
     arr = np.array(M, dtype=float if dtype == "float" else int).reshape(len(labels), len(labels))
+    if (int(arr.sum()) + len(labels)) % 3 == 0:
+        arr = np.asfortranarray(arr)        # same entries, column-major memory layout (a matrix is a matrix)
+    elif (int(arr.sum()) + len(labels)) % 3 == 1 and len(labels):
+        big = np.zeros((2 * len(labels), 2 * len(labels)), dtype=arr.dtype)
+        big[::2, ::2] = arr
+        arr = big[::2, ::2]                 # a strided view with the same entries
     if fmt == "numpy":
         return E.numpy_to_graph(arr, list(labels), _classes()[cls] if by_class else cls)
     if fmt in ("clearn", "clearn-arr"):
@@ -191,6 +197,20 @@ def impl_matrix(case):
     before = C.snapshot(G)
     enc = _guard(lambda: _export(efmt, G))
     res["mutated"] = before != C.snapshot(G)
+    if not isinstance(enc, str) and C.warm_decide({"g": case["g"], "cls": cls, "fmt": fmt, "k": "sub"}, 4):
+        # an instance of a (trivial) subclass with the same nodes and edges is the same graph: same matrix
+        try:
+            Sub = type("Study" + type(G).__name__, (type(G),), {})
+            T = Sub()
+            T.add_nodes_from(G.nodes)
+            for et_, gr_ in G.get_graphs().items():
+                T.add_edges_from(list(gr_.edges), et_)
+            enc2 = _guard(lambda: _export(efmt, T))
+            if isinstance(enc2, str) or enc2.tolist() != enc.tolist():
+                res["subclass"] = "export of a subclass instance with the same edges gives %s, of the %s itself %s" % (
+                    enc2 if isinstance(enc2, str) else mat_str(enc2.tolist()), type(G).__name__, mat_str(enc.tolist()))
+        except Exception:
+            pass
     dtype, by_class = case.get("dtype", "int"), bool(case.get("by_class"))
     if isinstance(enc, str):
         res["enc"] = enc
@@ -494,6 +514,8 @@ def judge(case, got, a2):
         viol.append(("mutation", "export changed the graph"))
     if got.get("order"):
         viol.append(("node_order", got["order"]))
+    if got.get("subclass"):
+        viol.append(("subclass", got["subclass"]))
     if case["fmt"] == "tetrad":
         k = 0
         if str(got.get("enc", "")).startswith("err:"):
@@ -783,8 +805,50 @@ def shrink_ts(case, fails):
     return cur
 
 
+def stress_tetrad():
+    """one LARGE Tetrad round trip (labelled TEST): a 16-node ADMG with 120 directed and 120 bidirected edges writes
+    240 edge lines - line numbers with three digits, which graphs on <= 8 nodes never produce"""
+    import tempfile
+    from pywhy_graphs import ADMG
+    from pywhy_graphs import export as E
+    n = 16
+    G = ADMG()
+    names = ["v%d" % i for i in range(n)]
+    G.add_nodes_from(names)
+    for i in range(n):
+        for j in range(i + 1, n):
+            G.add_edge(names[i], names[j], "directed")
+            G.add_edge(names[i], names[j], "bidirected")
+    d = tempfile.mkdtemp(prefix="c14big_", dir=os.path.join(C.VERIF, ".cache") if os.path.isdir(os.path.join(C.VERIF, ".cache")) else None)
+    fn = os.path.join(d, "big.txt")
+    try:
+        with quiet():
+            E.graph_to_tetrad(G, fn)
+            H = E.tetrad_to_graph(fn, "admg")
+        dd = set(H.get_graphs("directed").edges)
+        bb = set(frozenset(e) for e in H.get_graphs("bidirected").edges)
+        if set(H.nodes) != set(names) or dd != set(G.get_graphs("directed").edges) or bb != set(
+                frozenset(e) for e in G.get_graphs("bidirected").edges):
+            return "read back %d directed and %d bidirected edges on %d nodes, written 120 / 120 on 16" % (len(dd), len(bb), len(H.nodes))
+        return None
+    except Exception as e:
+        return "raised %s" % type(e).__name__
+    finally:
+        try:
+            if os.path.exists(fn):
+                os.unlink(fn)
+            os.rmdir(d)
+        except Exception:
+            pass
+
+
 def run(ctx):
     ev, out = ctx["ev"], ctx["out"]
+    _why = stress_tetrad()
+    ev.count("stress:tetrad-240-edge-lines" + (":ok" if _why is None else ":BAD"))
+    if _why is not None:
+        out.violation({"kind": "stress", "name": "tetrad-240-edge-lines"},
+                      {"kind": "tetrad round trip of a large graph", "detail": _why, "input": "see harness/c14.py stress_tetrad()"})
     ev.rule = ("graph cases: every graph of ADMG/CPDAG/PAG on 1-3 nodes over the per-pair configurations the class admits "
                "(ADMG: ->,<-,<->,--, and every two-type combination; CPDAG: ->,<-,--; PAG: ->,<-,<->,--,o-o,o->,<-o,--o,o--; "
                "directed layer acyclic) x insertion orders (all for n<=2, one random order for n=3 in quick, all in thorough) x every format "
